@@ -179,7 +179,10 @@ def sock_case(draw):
         else:
             steps.append({"k": k})
     steps.append({"k": "probe", "what": "endpoint"})
-    return {"endpoint": endpoint, "steps": steps, "slow_stop": draw(st.booleans())}
+    # how "a consumer failed" comes about: a consumer whose consume() raises (in-memory), or RabbitMQ cancelling the
+    # consumer server-side because its queue was deleted, so that the consumer's restart is refused
+    return {"endpoint": endpoint, "steps": steps, "slow_stop": draw(st.booleans()),
+            "backend": draw(st.sampled_from(["mem", "mem", "amqp-queue-deleted"]))}
 
 
 def free_port() -> int:
@@ -238,8 +241,22 @@ async def _sock(case: dict, out: Outcome):
     class Broker(InMemoryMessageBroker):
         CONSUMER_CLASS = FailingConsumer
 
-    conn = Connection(Broker())
+    env = None
+    if case.get("backend", "mem") == "amqp-queue-deleted":
+        from harness.brokers import Env
+
+        env = Env("amqp", asyncio.get_running_loop(), 0)  # the server model runs on this (real-time) loop as well
+        conn = env.connection("w0", None, buckets=False)
+    else:
+        conn = Connection(Broker())
     await conn.connect()
+
+    def make_consumer_fail() -> None:
+        if env is not None:
+            env.aserver.delete_queue("qfail")
+        else:
+            fail_flag.set()
+
     done_jobs: list = []
     router = Router()
 
@@ -319,7 +336,7 @@ async def _sock(case: dict, out: Outcome):
                 early.append(await asyncio.open_connection("127.0.0.1", port))
             elif k == "fail-consumer":
                 if not failed:
-                    fail_flag.set()
+                    make_consumer_fail()
                     failed = True
                     flips += 1
                     await asyncio.sleep(0.15)
@@ -404,7 +421,7 @@ async def _sock(case: dict, out: Outcome):
     except (OSError, asyncio.TimeoutError):
         pass
     out.nontrivial = malformed_then_ok > 0 or flips > 0
-    out.cls("flip" if flips else "no-flip", "malformed-sent" if malformed_then_ok else "no-malformed")
+    out.cls("flip" if flips else "no-flip", "malformed-sent" if malformed_then_ok else "no-malformed", "backend-" + case.get("backend", "mem"))
 
 
 def run_sock(case: dict) -> Outcome:
